@@ -179,6 +179,7 @@ type FnExec struct {
 	depthLimit int
 	caseTag    string
 	coverReturns bool
+	timeType     types.Type
 	heapInvs   map[string][]*HeapInv // resolved lazily: heap name -> invariants
 }
 
@@ -491,7 +492,7 @@ func (x *FnExec) validFact(term string, t types.Type, depth int) string {
 		}
 		if u.Info()&types.IsString != 0 {
 			if x.mode == ModeInt {
-				return fmt.Sprintf("(>= (strlen %s) 0)", term)
+				return fmt.Sprintf("(and (>= (strlen %s) 0) (<= (strlen %s) 4611686018427387904))", term, term)
 			}
 			return fmt.Sprintf("(and (bvsge (strlen %s) (_ bv0 64)) (bvslt (strlen %s) (_ bv4294967296 64)))", term, term)
 		}
